@@ -73,7 +73,10 @@ func (r *FeatureLocal) AddFunctionType(function model.FunctionType, read, write 
 	if r.role != model.RoleTypeServer && r.role != model.RoleTypeSpecial {
 		return
 	}
-	if r.operations[function] != nil {
+	r.muxDescription.Lock()
+	exists := r.operations[function] != nil
+	r.muxDescription.Unlock()
+	if exists {
 		return
 	}
 	writePartial := false
@@ -84,7 +87,9 @@ func (r *FeatureLocal) AddFunctionType(function model.FunctionType, read, write 
 		}
 	}
 	// partial reads are currently not supported!
+	r.muxDescription.Lock()
 	r.operations[function] = NewOperations(read, false, write, writePartial)
+	r.muxDescription.Unlock()
 
 	if r.role == model.RoleTypeServer &&
 		r.ftype == model.FeatureTypeTypeDeviceDiagnosis &&
@@ -96,6 +101,9 @@ func (r *FeatureLocal) AddFunctionType(function model.FunctionType, read, write 
 
 func (r *FeatureLocal) Functions() []model.FunctionType {
 	var fcts []model.FunctionType
+
+	r.muxDescription.Lock()
+	defer r.muxDescription.Unlock()
 
 	for key := range r.operations {
 		fcts = append(fcts, key)
@@ -833,7 +841,7 @@ func (r *FeatureLocal) functionData(function model.FunctionType) api.FunctionDat
 
 func (r *FeatureLocal) Information() *model.NodeManagementDetailedDiscoveryFeatureInformationType {
 	var funs []model.FunctionPropertyType
-	for fun, operations := range r.operations {
+	for fun, operations := range r.Operations() {
 		var functionType = model.FunctionType(fun)
 		sf := model.FunctionPropertyType{
 			Function:           &functionType,
@@ -848,7 +856,7 @@ func (r *FeatureLocal) Information() *model.NodeManagementDetailedDiscoveryFeatu
 			FeatureAddress:    r.Address(),
 			FeatureType:       &r.ftype,
 			Role:              &r.role,
-			Description:       r.description,
+			Description:       r.Description(),
 			SupportedFunction: funs,
 		},
 	}
